@@ -32,7 +32,7 @@ type c12Op struct {
 
 var c12Ops = []c12Op{
 	{ID: "PJson", Method: "post", Path: "/json", Bodies: []string{"application/json"},
-		Resps: []c12Resp{{Code: "200", Media: []string{"application/json"}, Headers: []string{"X-Rate", "X-Trace-Id"}}, {Code: "201", Media: []string{"application/vnd.api+json"}},
+		Resps: []c12Resp{{Code: "200", Media: []string{"application/json"}, Headers: []string{"X-Rate", "X-Trace-Id", "X-Score", "X-Ratio"}}, {Code: "201", Media: []string{"application/vnd.api+json"}},
 			{Code: "404", Ref: "NotFound", Media: []string{"application/json"}}, {Code: "default", Media: []string{"application/json"}}, {Code: "4XX", Media: []string{"application/json"}, Headers: []string{"X-Why"}},
 			// a wildcard that is still a JSON media type: the Content-Type comes with the response object
 			{Code: "206", Media: []string{"application/*+json"}, Headers: []string{"X-W"}}}},
@@ -132,9 +132,15 @@ func c12RespJ(r c12Resp) J {
 	if len(r.Headers) > 0 {
 		hs := J{}
 		for i, h := range r.Headers {
-			if i == 0 {
+			switch {
+			case i == 0:
 				hs[h] = J{"schema": J{"type": "integer"}}
-			} else {
+			case i == 2:
+				// a number header (float32): written as the shortest text that reads back as that float32
+				hs[h] = J{"schema": J{"type": "number"}}
+			case i == 3:
+				hs[h] = J{"schema": J{"type": "number", "format": "double"}}
+			default:
 				hs[h] = J{"schema": J{"type": "string"}}
 			}
 		}
